@@ -10,7 +10,7 @@ use slotted_egraphs::*;
 use std::collections::HashMap;
 
 /// (name, lhs, rhs, explicit side conditions (slot, var)) — must equal `Rules.pool` in the Lean model
-pub const POOL: [(&str, &str, &str, &[(&str, &str)]); 30] = [
+pub const POOL: [(&str, &str, &str, &[(&str, &str)]); 31] = [
     ("add-comm", "(add ?a ?b)", "(add ?b ?a)", &[]),
     ("add-assoc", "(add (add ?a ?b) ?c)", "(add ?a (add ?b ?c))", &[]),
     ("mul-comm", "(mul ?a ?b)", "(mul ?b ?a)", &[]),
@@ -41,6 +41,7 @@ pub const POOL: [(&str, &str, &str, &[(&str, &str)]); 30] = [
     ("sum-infactor-f2", "(mul ?c (sum $f2 ?a))", "(sum $f2 (mul ?c ?a))", &[]),
     ("sum-infactor-f3", "(mul ?c (sum $f3 ?a))", "(sum $f3 (mul ?c ?a))", &[]),
     ("sum-infactor-f4", "(mul ?c (sum $f4 ?a))", "(sum $f4 (mul ?c ?a))", &[]),
+    ("var-factor", "(add (mul (var $a) (var $b)) (var $a))", "(mul (var $a) (add (var $b) 1))", &[]),
 ];
 
 pub const BAD_POOL: [(&str, &str, &str, &[(&str, &str)]); 2] = [
@@ -183,6 +184,23 @@ pub fn gen_arith(rng: &mut Rng, depth: usize) -> ATerm {
     g.term(depth, &mut Vec::new())
 }
 
+/// `s1*s2 + s3` (sometimes commuted) over three of four slot names whose codes sort in different orders; `s3` is `s1` in a
+/// third of the cases (a genuine instance of `var-factor`), `s2` or another slot otherwise
+pub fn gen_var_factor_term(rng: &mut Rng) -> ATerm {
+    let var = |c: u32| ATerm { v: 2, fields: vec![CField::Slot(c)], children: vec![] };
+    let bin = |v: usize, a: ATerm, b: ATerm| ATerm { v, fields: vec![CField::App, CField::App], children: vec![a, b] };
+    let mut names: Vec<u32> = vec![4, 8, 2, 6];
+    rng.shuffle(&mut names);
+    let (s1, s2) = (names[0], names[1]);
+    let s3 = match rng.below(3) {
+        0 => s1,
+        1 => names[2],
+        _ => s2,
+    };
+    let prod = if rng.chance(1, 4) { bin(5, var(s2), var(s1)) } else { bin(5, var(s1), var(s2)) };
+    if rng.chance(1, 4) { bin(4, var(s3), prod) } else { bin(4, prod, var(s3)) }
+}
+
 pub fn exec_rw(start: Vec<ATerm>, rules: Vec<usize>, iters: usize, subst_extraction: bool, use_helper: bool, bad: bool) -> Case {
     let desc = format!(
         "start={} rules={} iters={iters} subst={} helper={use_helper}",
@@ -323,6 +341,13 @@ pub fn run(ctx: &mut Ctx) {
             let t = bin(5, factor, sum(j, body));
             start = if rng.chance(1, 2) { vec![t] } else { vec![var(w), t] };
             force.extend(["sum-infactor-f2", "sum-infactor-f3", "sum-infactor-f4", "sum-infactor"]);
+        }
+        if !bad && force.is_empty() && rng.chance(1, 8) {
+            // a rule with free pattern slots, one of them used twice: `p*q + r` must only be rewritten when `r` is `p`,
+            // whatever the sort order of the three slot names
+            let t = gen_var_factor_term(&mut rng);
+            start = if rng.chance(1, 2) { vec![t] } else { vec![t, gen_var_factor_term(&mut rng)] };
+            force.push("var-factor");
         }
         let n = if bad { BAD_POOL.len() } else { POOL.len() };
         let k = rng.range(2, 9.min(n));
